@@ -49,6 +49,13 @@ Per run:
         exec-generated operator templates copies (one generated Coq obligation per operator: protocol = arith_copy_protocol, Props/C20.v
         C20_arith_copy_result_edit_frames_operand / C20_arith_nocopy_refuted / C20_arith_frames_iff_copies); every `copy=` keyword of dadi/**/*.py
         is enumerated fail-closed; observed aliasing of every operator call = Heap.arith of the extracted protocol inside Coq (MemoCheck.arith_check).
+  (vi) CROSS stream (harness/props/c20_cross.py), every run: the container / dtype of every array-like argument (list, tuple, float64 ndarray, non-contiguous and
+        negatively strided views, list of numpy scalars, int64 ndarray) crossed with the mode keywords that change the internal path (multinom, log, just_hess, nested
+        index positions incl. the last one and a zero-valued nested parameter, fixed_params, bounds) for every public function of dadi.Godambe (enumerated from the
+        source fail-closed) and the optimiser helpers / objective function / Misc / Numerics / low-pass / Spectrum-method / from_phi / model / from_demes calls of the
+        catalogue: every argument bit-for-bit unchanged (values, types, dtypes, strides, raw bytes), the immediate repeat of the call on the same objects returns the
+        same value, sequences of statistics on the same objects return their pristine single-call values.  A failed translator obligation naming Godambe.py runs the
+        Godambe block in thorough size before no-failing-input-found may be reported.
 
 "Fresh interpreter": importing dadi costs 2-3 s, so every reference call / history / layout chunk runs in its own FORK of an
 interpreter that has imported the rebuilt dadi and done nothing else (harness/impl/c20_impl.py mode 'batch', one interpreter
@@ -64,6 +71,7 @@ from harness.translate import entry_protocol as ep
 from harness.props import c20_scan as scan
 from harness.props import c20_nearcol as nc
 from harness.props import c20_alias as al
+from harness.props import c20_cross as cr
 
 R = os.path.join(lib.REPO, 'dadi')
 ENV = {'OPENBLAS_NUM_THREADS': '1', 'MKL_NUM_THREADS': '1', 'DADI_REPO': lib.REPO}
@@ -825,7 +833,9 @@ def op_family(spec):
         return {'perturb': 'Misc.perturb_params', 'object_func': 'Inference._object_func', 'proj_down': 'Inference._project_params_down',
                 'proj_up': 'Inference._project_params_up'}.get(spec['f'], spec['f'])
     if spec['op'] == 'gim':
-        return 'Godambe.' + {'FIM': 'FIM_uncert', 'GIM': 'GIM_uncert', 'LRT': 'LRT_adjust'}[spec['f']]
+        if spec.get('fseq'):
+            return 'Godambe.' + ' + '.join(cr.GIM_NAME[g] for g in spec['fseq'])
+        return 'Godambe.' + cr.GIM_NAME[spec['f']]
     if spec['op'] == 'sp':
         return 'Spectrum.' + spec['m']
     if spec['op'] == 'lp':
@@ -1478,6 +1488,13 @@ def run(ctx):
     mut_chunks = [list(range(len(mut_specs)))[i::nmut] for i in range(nmut)]
     for c in mut_specs:
         ctx.count('mutate-stream op=' + c['op'])
+    # ---- the cross stream (drawn here, evaluated in a background thread next to the round below, judged after the mutate stream)
+    cr.source_obligation(ctx, R)
+    broken_cross = sorted(set(o['name'][:80] for o in ctx.obligations if not o['ok'] and o.get('kind') == 'translator'
+                              and 'Godambe' in (o['name'] + ' ' + str(o.get('detail') or ''))))
+    if broken_cross:
+        ctx.notes.append('source obligation(s) naming Godambe.py broke: the Godambe block of the cross stream runs in thorough size (targeted search)')
+    cross_state = cr.start(ctx, cat, rng, gen_fs, dy, run_many, sig, broken_cross)
     # ---- ONE round: every job in its own fork of an interpreter that has only imported dadi
     jobs, tags, jseeds = [], [], []
     def add(tag, payload, seed=0):
@@ -1647,6 +1664,9 @@ def run(ctx):
                    st['new_alias'] == 0 and st['array_returning_calls'] > 0, 'predicate', '%d calls with a new alias' % st['new_alias'])
     al.discover_flush()
     lap('mutate stream')
+    # ---- the cross stream: container / dtype of every array-like argument x mode keywords; arguments bit-for-bit unchanged, immediate repeat, sequences
+    cr.finish(ctx, rep, cross_state, op_family, sig)
+    lap('cross stream')
     # ---- memo machine inside Coq
     header = 'From Coq Require Import ZArith NArith List.\nFrom Dadi Require Import Model.Memo Model.MemoCheck.\nImport ListNotations.'
     mres = ctx.coq_cases('memo', header, memo_cases, 'memo_check', 'exact (ids)', shard=ctx.pick(8, 20), kind='memo')
@@ -1778,6 +1798,8 @@ def run_replay(ctx):
         alias_findings(rep, inp['call'], rec, 'replay')
         ctx.obligation('replayed call returns a result that shares no buffer with its arguments / module-level objects beyond the documented views', not ctx.violations, 'predicate',
                        json.dumps(rec.get('alias_pairs')))
+    elif kind == 'cross':
+        cr.replay(ctx, inp, run_many, op_family, sig)
     elif kind == 'mutate':
         r = run_many([{'mode': 'mutate', 'calls': [inp['call']]}])[0]
         if 'crash' in r:
